@@ -127,7 +127,7 @@ ActiveHeldLayers(L) ==
   LET sel == FilterSeq(L.states, LAMBDA s : s.t = "lm") IN
   [i \in DOMAIN sel |-> sel[Len(sel) + 1 - i].a]
 
-\* src: layout.rs trans_resolution_layer_order.  The held layers are `take(MAX_ACTIVE_LAYERS - 2)`n (the most recently
+\* src: layout.rs trans_resolution_layer_order.  The held layers are `take(MAX_ACTIVE_LAYERS - 2)` (the most recently
 \* activated ones, fix 4b8ada1), which leaves room for the two fallback entries; `push` beyond capacity is ignored.
 \* Model mutant Bug = "c02_layer_collect": the code before the fix - heapless `collect` of all held layers into the
 \* 12-entry Vec, a panic when more than 12 layers are held.
@@ -141,7 +141,7 @@ TransOrderRaw(L) ==
                  THEN Append(v1, 0) ELSE v1
        IN v2
   ELSE IF Opts.delegate /\ cur # 0 THEN <<cur, 0>> ELSE <<cur>>
-TransOrderPanics(L) == Opts.trans_v2 /\ Len(ActiveHeldLayers(L)) > Caps.stack
+TransOrderPanics(L) == Bug = "c02_layer_collect" /\ Opts.trans_v2 /\ Len(ActiveHeldLayers(L)) > Caps.stack
 TransOrder(L) == IF TransOrderPanics(L) THEN <<>> ELSE TransOrderRaw(L)
 
 \* ----- one-shot (layout.rs:919-994) ---------------------------------------------
@@ -355,7 +355,8 @@ ShrinkEnd(g, order, start, end) ==       \* start,end 0-based, half-open
 RECURSIVE DecompLoop(_, _, _, _, _, _, _)
 DecompLoop(w, g, queue, order, dcoord, start, aq) ==
   LET len == Len(order)
-      delay == w.delay + w.ticks
+      \* src: layout.rs:813 saturating_add (fix 871d8af)
+      delay == IF Bug = "c02_wdelay_unchecked" THEN w.delay + w.ticks ELSE SatAddU16(w.delay, w.ticks)
       AqEntry(m) == LET c == CoordForChord(w, g, queue, dcoord, m) IN
                     [x |-> c[1], y |-> c[2], delay |-> delay, ac |-> ChGetChord(g, m)]
   IN IF start >= len THEN aq
@@ -515,10 +516,18 @@ DoAction(L00, aid0, dynk, x, y, delay, isOs, stack0) ==
     [] a.t = "src" ->
          [L |-> DoAction(L0, SrcAct(y), <<>>, x, y, delay, isOs, <<>>).L, ce |-> NoCe]
     [] a.t = "repeat" ->
+         \* src: layout.rs Repeat arm (fix 5f7376a): `rpt_action.take()` before the call, so a Repeat inside the repeated
+         \* action finds None and does nothing; restored afterwards if the repeated action did not set a new one.
+         \* Model mutant Bug = "c02_repeat_reentrant": the code before the fix - rpt_action stays set during the call and
+         \* an action that reaches Repeat again recurses until the stack overflows.
          IF L0.rpt.id = -9 THEN [L |-> L0, ce |-> NoCe]
-         ELSE IF L0.rpt.id > 0 /\ RptReachesRepeat(L0.rpt.id, L0.states)
-         THEN [L |-> Panic(L0, "stack-overflow:repeat"), ce |-> NoCe]
-         ELSE [L |-> DoAction(L0, L0.rpt.id, L0.rpt.kcs, x, y, delay, isOs, <<>>).L, ce |-> NoCe]
+         ELSE IF Bug = "c02_repeat_reentrant"
+         THEN IF L0.rpt.id > 0 /\ RptReachesRepeat(L0.rpt.id, L0.states)
+              THEN [L |-> Panic(L0, "stack-overflow:repeat"), ce |-> NoCe]
+              ELSE [L |-> DoAction(L0, L0.rpt.id, L0.rpt.kcs, x, y, delay, isOs, <<>>).L, ce |-> NoCe]
+         ELSE LET saved == L0.rpt
+                  Lr == DoAction([L0 EXCEPT !.rpt = NoRpt], saved.id, saved.kcs, x, y, delay, isOs, <<>>).L
+              IN [L |-> IF Lr.rpt = NoRpt THEN [Lr EXCEPT !.rpt = saved] ELSE Lr, ce |-> NoCe]
     [] a.t = "holdtap" ->
          IF a.thi = 0 \/ <<x, y>> # L0.lpc \/ L0.lpt = 0
          THEN LET quick == Opts.concurrent_tap_hold
@@ -658,9 +667,11 @@ GetWaiting(L, idx) == IF idx < 0 THEN L.waiting
                       ELSE IF idx + 1 \in DOMAIN L.extra THEN <<L.extra[idx + 1]>> ELSE <<>>
 RemoveWaiting(L, idx) == IF idx < 0 THEN [L EXCEPT !.waiting = <<>>]
                          ELSE [L EXCEPT !.extra = RemoveAt(@, idx + 1)]
-WDelay(w) == IF w.k = "td" THEN 0 ELSE w.delay + w.ticks
-\* src: layout.rs:1131,1161,1191 `w.delay + w.ticks` - unchecked u16 addition (delay = saturated queue age)
-WDelayOverflows(w) == w.k # "td" /\ w.delay + w.ticks > U16Max
+\* src: layout.rs waiting_into_hold / _tap / _timeout: `w.delay.saturating_add(w.ticks)` (fix 871d8af; delay = saturated
+\* queue age).  Model mutant Bug = "c02_wdelay_unchecked": the unchecked u16 addition before the fix (a panic with
+\* overflow checks; the fourth site, decompose_chord_into_action_queue, has no panic branch in the model).
+WDelay(w) == IF w.k = "td" THEN 0 ELSE SatAddU16(w.delay, w.ticks)
+WDelayOverflows(w) == Bug = "c02_wdelay_unchecked" /\ w.k # "td" /\ w.delay + w.ticks > U16Max
 
 WaitingIntoHold(L, idx) ==
   LET ws == GetWaiting(L, idx) IN
